@@ -4,6 +4,11 @@ NOTES = ("All checks run /venv/bin/python on bitstring imported from /repo's wor
          "known_findings.json lists genuine defects (open: reported as KNOWN-FINDING; fixed: suppress nothing).")
 NOT_APPLICABLE = {}
 CHECKS = {
+ 'C10': dict(
+    text="Bounded exhaustive exploration: every integer of a window around 0 and every +-(2**k+d) up to 2**200 is encoded through every creation route and compared with codewords computed from the H.264/Dirac definitions; every bit string up to 15 (quick) / 18 (thorough) bits is fed to every decoder entry point (read, peek, unpack, property, Dtype.parse) at pos 0 and after junk bits and compared with a reference prefix parser (value, new pos, ReadError/ValueError, pos unchanged); every sequence of <= 3/4 mixed codewords is read back step by step.",
+    design_ref="DESIGN.md section 4 C10",
+    note="Trusts the 80-line reference codecs (bsmc/models/golomb.py), self-tested against the tables printed in doc/exp-golomb.rst. Integers beyond the window are covered only at powers of two +-2.",
+    technique="explicit-state bounded exhaustive enumeration of decoder inputs / encoder domain with lock-step reference codec"),
  'C16': dict(
     text="Bounded exhaustive exploration: every ordered pair of contents in the bound x every operator (& | ^ plain, reflected, in-place; ~; << >> <<= >>= with every shift count in the menu) x class combination and promotable operand form is executed on the real classes and compared with Python int arithmetic masked to len; result class, result pos, exception class and 'operands unchanged' (including s OP s) are part of every comparison.",
     design_ref="DESIGN.md section 4 C16",
